@@ -693,3 +693,287 @@ def check_c02(rep, tier, seed, wd, replay):
                     "files written by the real writer under random configurations (all Skip* combinations, none/zstd/lz4/xor); per file: Info, Messages default (index), Messages UsingIndex(false), LogTime and Reverse order, every attachment and metadata record fetched by its offset, metadata callbacks; compared with the Reader model; oracle: indexed file-order sequence == scan sequence, ordered reads are permutations of the scan, never silently fewer messages, random-access content == decoded content, callback lists; distinct = distinct writer configurations",
                     [cr.read_replay(c)[:5] for c in cases[:2]], dict(st, files=len(files), disagreements=nd))
     return cov, ["xor-compressed chunks are unreadable through the index (no custom decompressor hook in Reader): error expected"]
+
+
+# ------------------------------------------------------------------ iterator family (C03, C04, C20)
+import mcapenc  # noqa: E402
+
+TOPICS = [b"/a", b"/b", b"/a"]      # channels 1 and 3 share a topic
+
+
+def arrangement(r, nchunks, maxmsgs, ts_domain, nch=3, overlap=None, empty_channel=True):
+    """A layout: schemas+channels at top level, then chunks of messages (unique sequence numbers)."""
+    items = [("schema", {"id": 1, "name": b"s", "encoding": b"e", "data": b"d"})]
+    for i in range(nch):
+        items.append(("channel", {"id": i + 1, "schema_id": 1 if i % 2 == 0 else 0, "topic": TOPICS[i % 3], "message_encoding": b"m", "metadata": []}))
+    if empty_channel:
+        items.append(("channel", {"id": 9, "schema_id": 0, "topic": b"/empty", "message_encoding": b"", "metadata": []}))
+    seq = 0
+    for k in range(nchunks):
+        inner = []
+        n = r.randint(0, maxmsgs)
+        if overlap is not None:
+            lo, hi = overlap[k]
+            n = max(n, 2)
+            tss = [lo, hi] + [r.randint(lo, hi) for _ in range(n - 2)]
+            r.shuffle(tss)
+        else:
+            tss = [r.choice(ts_domain) for _ in range(n)]
+        for t in tss:
+            inner.append(("message", {"channel_id": r.randint(1, nch), "sequence": seq, "log_time": t, "publish_time": seq, "data": bytes([seq % 251])}))
+            seq += 1
+        if inner or r.random() < 0.3:
+            items.append(("chunk", inner, {}))
+        if r.random() < 0.15:
+            items.append(("metadata", {"name": b"md%d" % k, "metadata": [(b"k", b"v")]}))
+    return {"header": {"profile": b"", "library": b"ref"}, "items": items, "message_index": r.random() < 0.8}
+
+
+def parse_msg_line(l):
+    f = l.split(" ")
+    i = f.index("message")
+    ci = f.index("channel")
+    return {"chan": int(f[i + 1]), "seq": int(f[i + 2]), "log": int(f[i + 3]), "topic": f[ci + 3], "line": l}
+
+
+def max_overlap(ranges):
+    """largest number of closed intervals sharing a common point"""
+    best = 0
+    for lo, hi in ranges:
+        for p in (lo, hi):
+            best = max(best, sum(1 for a, b in ranges if a <= p <= b))
+    return best
+
+
+@prop("C03")
+def check_c03(rep, tier, seed, wd, replay):
+    import random
+    r = random.Random(seed * 1000 + 3)
+    nfiles = 160 if tier == "quick" else 4000
+    domains = [[0, 1, 2, 3], [5, 5, 5, 7], [0, 2**64 - 1, 2**64 - 2, 2**63], list(range(20)), [0, 10, 10**6, 2**40, 2**64 - 1]]
+    files = []
+    for i in range(nfiles):
+        big = r.random() < 0.2
+        L = arrangement(r, r.randint(1, 30 if big else 6), r.randint(1, 12 if big else 4), r.choice(domains))
+        data, info = mcapenc.build(L)
+        files.append({"id": "c03a%d" % i, "file": data, "L": L})
+    # files from the real writer: descending stamps, tiny chunks
+    wfiles, crashed = cl.written_files(seed * 1000 + 3, 40 if tier == "quick" else 600, "c03w", wd, nmax=30,
+                                       force={"skipmagic": False, "skiprch": False, "skiprsh": False, "skipci": False, "chunked": True, "custom": False, "comp": "zstd"})
+    for f in wfiles:
+        files.append(f)
+    cases = []
+    for f in files:
+        for suf, ro in (("log", ["order:log"]), ("rev", ["order:rev"]), ("file", []), ("scan", ["index:0"])):
+            c = {"id": f["id"] + "_" + suf, "file": f["file"], "ropts": ro, "ops": [["messages"], ["messages", "into"]], "base": f, "order": suf}
+            cases.append(c)
+    go, model, nd = read_corr(rep, cases, wd, "c03")
+    st = {"ordered_reads": 0, "messages": 0, "ties_checked": 0}
+    for c in cases:
+        g = go.get(c["id"])
+        probs = []
+        f = c["base"]
+        if g and g["ops"] and c["order"] in ("log", "rev"):
+            if "d" not in f:
+                try:
+                    f["d"] = mcapspec.decode(f["file"], cw.plain_lookup(f["g"]) if "g" in f else None)
+                except mcapspec.SpecError as e:
+                    f["d"] = None
+            o = g["ops"][0]
+            if o["panic"]:
+                probs.append("reader crashed: %s" % o["panic"])
+            elif (o["head"] or "").startswith("messages ok") and o["end"] == "err:eof" and f["d"]:
+                st["ordered_reads"] += 1
+                ms = [parse_msg_line(l) for l in o["msgs"]]
+                st["messages"] += len(ms)
+                ts = [m["log"] for m in ms]
+                if c["order"] == "log" and any(ts[i] > ts[i + 1] for i in range(len(ts) - 1)):
+                    probs.append("log-time order read is not non-decreasing")
+                if c["order"] == "rev" and any(ts[i] < ts[i + 1] for i in range(len(ts) - 1)):
+                    probs.append("reverse log-time order read is not non-increasing")
+                want = sorted((m["channel_id"], m["sequence"], m["log_time"]) for m in f["d"]["messages"])
+                got = sorted((m["chan"], m["seq"], m["log"]) for m in ms)
+                if (o["head"] or "").endswith("indexed") and want != got:
+                    probs.append("time-ordered read returned %d messages, file holds %d (not each exactly once)" % (len(got), len(want)))
+                # stability inside a chunk: equal log time keeps file order (reverse when reading in reverse)
+                pos = {}
+                for idx, m in enumerate(f["d"]["messages"] if "L" in f else []):   # unique sequence numbers only in encoder files
+                    if m["where"][0] == "chunk":
+                        pos[(m["channel_id"], m["sequence"], m["log_time"], m["data"])] = (m["where"][1], m["where"][2])
+                last = {}
+                for m in ms:
+                    key = None
+                    for k2, v in pos.items():
+                        if k2[0] == m["chan"] and k2[1] == m["seq"] and k2[2] == m["log"]:
+                            key = v
+                            break
+                    if key is None:
+                        continue
+                    ck = (key[0], m["log"])
+                    if ck in last:
+                        st["ties_checked"] += 1
+                        if c["order"] == "log" and key[1] < last[ck]:
+                            probs.append("messages of one chunk with equal log time %d not in file order" % m["log"])
+                        if c["order"] == "rev" and key[1] > last[ck]:
+                            probs.append("messages of one chunk with equal log time %d not in reverse file order (reverse read)" % m["log"])
+                    last[ck] = key[1]
+                # repeatability
+                if len(g["ops"]) > 1 and g["ops"][1]["msgs"] != o["msgs"]:
+                    probs.append("repeating the read gave a different sequence")
+        report_case(rep, c, probs[:3], cr.read_replay)
+    cov = summarize(rep, len(cases), len(files),
+                    "chunk arrangements rendered by the reference encoder (1-30 chunks, 0-12 messages each, timestamps from small tie-heavy domains and from {0, 2^63, 2^64-2, 2^64-1}; overlapping, nested, backwards ranges; empty chunks) plus files from the real writer with tiny chunks; read in LogTime, Reverse, file order (indexed) and by scan, each twice (Next and NextInto); compared with the iterator model message by message; oracle: sortedness, each message exactly once, in-chunk tie order, repeatability; distinct = distinct files",
+                    [cr.read_replay(c)[:5] for c in cases[:2]], dict(st, files=len(files), disagreements=nd))
+    return cov, []
+
+
+def window_variants(s, e):
+    v = [("nanos", ["afternanos:%d" % s, "beforenanos:%d" % e]), ("nanos_rev", ["beforenanos:%d" % e, "afternanos:%d" % s])]
+    if 0 < e < 2**63 and s < 2**63:
+        v += [("i64", ["after:%d" % s, "before:%d" % e]), ("i64_rev", ["before:%d" % e, "after:%d" % s])]
+    return v
+
+
+@prop("C04")
+def check_c04(rep, tier, seed, wd, replay):
+    import random
+    r = random.Random(seed * 1000 + 4)
+    nfiles = 40 if tier == "quick" else 800
+    domains = [[0, 1, 2, 3], [0, 2**64 - 1, 2**64 - 2, 5], list(range(0, 40, 3)), [0, 10, 10**6, 2**40, 2**62]]
+    files = []
+    for i in range(nfiles):
+        L = arrangement(r, r.randint(1, 8), r.randint(1, 5), r.choice(domains))
+        data, info = mcapenc.build(L)
+        files.append({"id": "c04a%d" % i, "file": data, "L": L})
+    wfiles, crashed = cl.written_files(seed * 1000 + 4, 12 if tier == "quick" else 300, "c04w", wd, nmax=25, force={"skipmagic": False})
+    files += wfiles
+    cases = []
+    for f in files:
+        try:
+            f["d"] = mcapspec.decode(f["file"], cw.plain_lookup(f["g"]) if "g" in f else None)
+        except mcapspec.SpecError:
+            continue
+        d = f["d"]
+        times = sorted(set([m["log_time"] for m in d["messages"]] + [c["start"] for c in d["chunks"]] + [c["end"] for c in d["chunks"]] + [0, 2**64 - 1]))
+        topics_all = sorted(set(c["topic"] for c in d["channels"].values()))
+        cases.append({"id": f["id"] + "_all_idx", "file": f["file"], "ropts": [], "ops": [["messages"]], "base": f, "win": None, "topics": None, "order": "file"})
+        cases.append({"id": f["id"] + "_all_scan", "file": f["file"], "ropts": ["index:0"], "ops": [["messages"]], "base": f, "win": None, "topics": None, "order": "scan"})
+        nw = 5 if tier == "quick" else 12
+        for wi in range(nw):
+            s = r.choice(times)
+            e = r.choice([t for t in times if t >= s] + [s, min(2**64 - 1, s + 1)])
+            if r.random() < 0.25:
+                s, e = (r.choice(times) + r.choice([-1, 1])) % 2**64, e
+                if s > e:
+                    s, e = e, s
+            tsel = r.choice([None, None, [b"/nonexistent"], topics_all[:1], topics_all, [b"/empty"]])
+            for vname, wopts in window_variants(s, e):
+                for order, oopts in (("file", []), ("scan", ["index:0"]), ("log", ["order:log"]), ("rev", ["order:rev"])):
+                    if r.random() < (0.45 if tier == "quick" else 1.0):
+                        ro = list(wopts) + (["topics:" + ",".join(t.hex() for t in tsel)] if tsel is not None else []) + oopts
+                        cases.append({"id": "%s_w%d_%s_%s" % (f["id"], wi, vname, order), "file": f["file"], "ropts": ro, "ops": [["messages"]],
+                                      "base": f, "win": (s, e), "topics": tsel, "order": order, "variant": vname})
+        # the int64 spellings on their own (a lower bound alone, an upper bound alone)
+        t0 = r.choice([t for t in times if 0 < t < 2**63] or [5])
+        cases.append({"id": f["id"] + "_after_only", "file": f["file"], "ropts": ["after:%d" % t0], "ops": [["messages"]], "base": f, "win": (t0, None), "topics": None, "order": "file"})
+        cases.append({"id": f["id"] + "_before_only", "file": f["file"], "ropts": ["before:%d" % t0], "ops": [["messages"]], "base": f, "win": (0, t0), "topics": None, "order": "file"})
+        cases.append({"id": f["id"] + "_afternanos_only", "file": f["file"], "ropts": ["afternanos:%d" % t0], "ops": [["messages"]], "base": f, "win": (t0, None), "topics": None, "order": "file"})
+    go, model, nd = read_corr(rep, cases, wd, "c04")
+    st = {"window_reads": 0, "spelling_groups": 0, "empty_results": 0, "nonempty_results": 0}
+    for c in cases:
+        g = go.get(c["id"])
+        probs = []
+        f = c["base"]
+        if g and g["ops"]:
+            o = g["ops"][0]
+            h = o["head"] or ""
+            if o["panic"]:
+                probs.append("reader crashed: %s" % o["panic"])
+            elif h.startswith("messages err"):
+                if c["win"] is None or c["win"][1] is None or c["win"][0] <= c["win"][1]:
+                    if not (h.endswith("err:other") and c["order"] in ("log", "rev") and False):
+                        scan_ok = True
+                        # an ordered read of a file without usable index may legitimately fail
+                        allidx = go.get(f["id"] + "_all_idx")
+                        indexed_file = allidx and allidx["ops"] and (allidx["ops"][0]["head"] or "").endswith("indexed")
+                        if c["order"] in ("file", "scan") or indexed_file:
+                            probs.append("a legal window/topic selection (%s) was rejected: %s" % (" ".join(c["ropts"]), h))
+            elif h.startswith("messages ok") and o["end"] == "err:eof":
+                st["window_reads"] += 1
+                d = f["d"]
+                s, e = c["win"] if c["win"] else (0, None)
+                chan_topic = {cid: ch["topic"] for cid, ch in d["channels"].items()}
+                exp = [m for m in d["messages"] if (c["topics"] is None or chan_topic.get(m["channel_id"]) in c["topics"] or (c["topics"] == []))
+                       and m["log_time"] >= s and (e is None or m["log_time"] < e)]
+                got = [parse_msg_line(l) for l in o["msgs"]]
+                gk = [(m["chan"], m["seq"], m["log"]) for m in got]
+                ek = [(m["channel_id"], m["sequence"], m["log_time"]) for m in exp]
+                if not ek:
+                    st["empty_results"] += 1
+                else:
+                    st["nonempty_results"] += 1
+                if c["order"] in ("file", "scan") and h.endswith("scan") or c["order"] == "scan":
+                    if gk != ek:
+                        probs.append("selection %s returned %d messages, exactly matching are %d (sequence differs)" % (" ".join(c["ropts"]), len(gk), len(ek)))
+                elif sorted(gk) != sorted(ek):
+                    missing = len(set(ek) - set(gk)); extra = len(set(gk) - set(ek))
+                    probs.append("selection %s returned %d messages, exactly matching are %d (%d missing, %d extra)" % (" ".join(c["ropts"]), len(gk), len(ek), missing, extra))
+        report_case(rep, c, probs[:2], cr.read_replay)
+    cov = summarize(rep, len(cases), len(set((c["base"]["id"], c["win"], tuple(c["topics"]) if c["topics"] is not None else None, c["order"]) for c in cases)),
+                    "reference-encoder arrangements and real-writer files; windows with boundaries at message times, chunk start/end times, 0, 2^64-1, off-by-one, start=end; topic subsets: none, unknown, one shared by two channels, all, a channel without messages; each window spelled AfterNanos/BeforeNanos and After/Before in both argument orders; indexed file order, scan, LogTime, Reverse; compared with the model; oracle: result == filter(start<=t<end, topic in set) of the decoded file",
+                    [cr.read_replay(c)[:5] for c in cases[2:4]], dict(st, files=len(files), disagreements=nd))
+    return cov, []
+
+
+@prop("C20")
+def check_c20(rep, tier, seed, wd, replay):
+    import random
+    r = random.Random(seed * 1000 + 20)
+    nfiles = 60 if tier == "quick" else 600
+    files = []
+    for i in range(nfiles):
+        depth = r.randint(1, 8)
+        nchunks = r.randint(10, 60 if tier == "quick" else 1000)
+        # ranges with controlled overlap depth: `depth` interleaved lanes of disjoint ranges
+        ranges = []
+        lane_end = [0] * depth
+        t = 10
+        for k in range(nchunks):
+            lane = k % depth
+            lo = max(lane_end[lane] + 1, t + r.randint(0, 5))
+            hi = lo + r.randint(0, 40) * depth
+            lane_end[lane] = hi
+            ranges.append((lo, hi))
+            t = lo
+        L = arrangement(r, nchunks, 4, None, overlap=ranges, empty_channel=False)
+        data, info = mcapenc.build(L)
+        rs = [(ci["start"], ci["end"]) for ci in info["chunk_indexes"]]
+        files.append({"id": "c20a%d" % i, "file": data, "ranges": rs, "maxov": max_overlap(rs), "depth": depth})
+    cases = []
+    for f in files:
+        for suf, ro in (("log", ["order:log"]), ("rev", ["order:rev"]), ("file", []), ("logf", ["order:log", "topics:" + b"/a".hex()]),
+                        ("logw", ["order:log", "afternanos:%d" % (f["ranges"][len(f["ranges"]) // 3][0])])):
+            cases.append({"id": f["id"] + "_" + suf, "file": f["file"], "ropts": ro, "ops": [["messages"]], "base": f, "order": suf})
+    go, model, nd = read_corr(rep, cases, wd, "c20")
+    st = {"reads": 0, "max_slots_seen": 0, "max_overlap_seen": 0}
+    for c in cases:
+        g = go.get(c["id"])
+        probs = []
+        f = c["base"]
+        if g and g["ops"]:
+            o = g["ops"][0]
+            if o["panic"]:
+                probs.append("reader crashed: %s" % o["panic"])
+            elif o["slots"]:
+                st["reads"] += 1
+                ns, live = [int(x) for x in o["slots"].split(" ")]
+                st["max_slots_seen"] = max(st["max_slots_seen"], ns)
+                st["max_overlap_seen"] = max(st["max_overlap_seen"], f["maxov"])
+                bound = 1 if c["order"] == "file" else max(1, f["maxov"])
+                if ns > bound:
+                    probs.append("%s read kept %d decompressed chunks; at most %d chunk time ranges overlap" % (c["order"], ns, bound))
+        report_case(rep, c, probs, cr.read_replay)
+    cov = summarize(rep, len(cases), len(files),
+                    "files of 10-60 (thorough: -1000) chunks with overlap depth 1..8 built by the reference encoder; read in LogTime, Reverse and file order, with and without topic/time filters; the verif hook reports slots allocated and slots with unread messages after every Next; compared with the model's slot trace (maxima); oracle: slots <= max(1, max overlap of chunk ranges), 1 in file order",
+                    [cr.read_replay(c)[:5] for c in cases[:2]], dict(st, files=len(files), disagreements=nd))
+    return cov, ["attachment streaming memory and real buffer sizes are measured at run time, not proved (partial)"]
